@@ -89,6 +89,8 @@ pub const T_LEN_END: &[&str] = &["C11", "C05"];
 pub const T_LEN_SKIP: &[&str] = &["C11", "C06"];
 pub const T_REST: &[&str] = &["C10"];
 pub const T_LEDGER: &[&str] = &["C08"];
+/// the history ended with into_seq_iter: destroying an element twice / never is also a defect of the conversion
+pub const T_LEDGER_SEQ: &[&str] = &["C08", "C10"];
 pub const T_ALLOC: &[&str] = &["C15"];
 pub const T_ADDR: &[&str] = &["C19"];
 pub const T_SRC: &[&str] = &["C19", "C13"];
@@ -115,6 +117,7 @@ pub struct Env {
     pub scratch: Vec<(usize, Seen)>,
     /// C16: chunk size 0 is part of the alphabet (documented panics are expected)
     pub allow_zero: bool,
+    pub seq_terminal: bool,
 }
 
 #[inline]
@@ -127,7 +130,7 @@ pub fn subj<R>(f: impl FnOnce() -> R) -> R {
 
 impl Env {
     pub fn new(ki: KindInfo, len: usize) -> Self {
-        Env { ki, len, code: len, m: Model::new(len), src_base: 0, stride: 0, obs: Vec::with_capacity(256), viol: None, qviols: Vec::new(), step: 0, handed: [0; NPOS], scratch: Vec::with_capacity(16), allow_zero: false }
+        Env { ki, len, code: len, m: Model::new(len), src_base: 0, stride: 0, obs: Vec::with_capacity(256), viol: None, qviols: Vec::new(), step: 0, handed: [0; NPOS], scratch: Vec::with_capacity(16), allow_zero: false, seq_terminal: false }
     }
     pub fn reset(&mut self) {
         self.m = Model::new(self.len);
@@ -700,6 +703,7 @@ where
         }
     }
     env.step = hist.len();
+    env.seq_terminal = matches!(term, Term::Seq(_));
     crate::CUR_STEP.store(hist.len(), std::sync::atomic::Ordering::Relaxed);
     env.obs.push(MK_TERM);
     match term {
@@ -790,7 +794,7 @@ pub fn end_checks(env: &mut Env, source_still_alive: bool) {
             let bad: Vec<(usize, u8)> = (0..llen).filter(|&p| l.dropped[p].get() != 1).map(|p| (p, l.dropped[p].get())).collect();
             if !bad.is_empty() {
                 let class = if bad.iter().all(|b| b.1 == 0) { "never-dropped" } else { "dropped-twice" };
-                env.fail(T_LEDGER, class, format!("(position, times destroyed) after everything was dropped: {bad:?}"));
+                env.fail(if env.seq_terminal { T_LEDGER_SEQ } else { T_LEDGER }, class, format!("(position, times destroyed) after everything was dropped: {bad:?}"));
             }
         } else if source_still_alive {
             let bad: Vec<usize> = (0..llen).filter(|&p| l.dropped[p].get() != 0).collect();
@@ -810,7 +814,7 @@ pub fn alloc_check(env: &mut Env) {
     env.obs.push(MK_ALLOC | blocks as u64);
     if blocks != 0 || bytes != 0 {
         if let Some(v) = env.viol.as_mut() {
-            if v.tags == T_LEDGER {
+            if v.tags == T_LEDGER || v.tags == T_LEDGER_SEQ {
                 // an element that is never destroyed also leaks the memory it owns
                 v.tags = &["C08", "C15"];
                 v.detail.push_str(&format!("; {blocks} heap block(s) / {bytes} bytes still live"));
